@@ -192,6 +192,28 @@ def reject_case(rep):
     d = base()
     d['level_params']['residual_type'] = 'nonsense'
     rep.side('unknown-residual-type', _raises(lambda: run(d), (ParameterError,)) is True)
+    # names that are close to valid ones (suffix / prefix / case / blank variants): every one of them is unknown and must be rejected, for every
+    # sweeper family that brings its own residual computation
+    from pySDC.implementations.sweeper_classes.imex_1st_order import imex_1st_order
+    from pySDC.implementations.sweeper_classes.explicit import explicit
+    from pySDC.implementations.problem_classes.TestEquation_0D import test_equation_IMEX
+
+    for bad in ('max_rel', 'first_rel', 'full_abs_rel', 'l2_rel', 'FULL_ABS', 'Full_rel', 'full', 'last', 'rel', 'abs', 'full_abs ', ' last_abs', 'last-abs', 'full_absolute', ''):
+        for swname, swc, pc in (('generic_implicit', generic_implicit, testequation0d), ('imex_1st_order', imex_1st_order, test_equation_IMEX), ('explicit', explicit, testequation0d)):
+            d = base()
+            d['sweeper_class'] = swc
+            d['problem_class'] = pc
+            if swc is not generic_implicit:
+                d['sweeper_params'].pop('QI', None)
+            if pc is test_equation_IMEX:
+                d['problem_params'] = {'lambdas_implicit': np.array([-1.0]), 'lambdas_explicit': np.array([-0.5]), 'u0': 1.0}
+            ok_first = _raises(lambda: run(d), (Exception,)) is False
+            d['level_params']['residual_type'] = bad
+            rep.side(f'unknown-residual-type/{bad!r}/{swname}', ok_first and _raises(lambda: run(d), (ParameterError,)) is True)
+    for bad in ('Spread', 'SPREAD', 'spread ', 'zeros', 'zero_', 'copy2', 'rand', ''):
+        d = base()
+        d['sweeper_params']['initial_guess'] = bad
+        rep.side(f'unknown-initial-guess/{bad!r}', _raises(lambda: run(d), (ParameterError,)) is True)
     d = base()
     d['sweeper_params']['initial_guess'] = 'nonsense'
     rep.side('unknown-initial-guess', _raises(lambda: run(d), (ParameterError,)) is True)
